@@ -470,11 +470,18 @@ impl IoLoop {
                     self.inner.write_to_stream(stream)?;
                 }
                 if event.readiness().is_readable() {
-                    self.inner.read_from_stream(
+                    let result = self.inner.read_from_stream(
                         stream,
                         &mut self.frame_buffer,
                         |inner, frame| state.process(inner, frame),
-                    )?;
+                    );
+                    match result {
+                        // the server is free to close the socket right behind its
+                        // CloseOk; we are done either way
+                        Err(Error::UnexpectedSocketClose)
+                            if matches!(state, ConnectionState::ClientClosed) => {}
+                        other => other?,
+                    }
                 }
             }
             HEARTBEAT => self.inner.process_heartbeat_timers()?,
